@@ -33,7 +33,7 @@ confirmed = dict(
 # detection: apply to /repo, run the check, undo
 subprocess.run(['git', '-C', '/repo', 'apply', dst + '/patch.diff'], check=True)
 try:
-    p = subprocess.run(['./check', prop, 'quick'], cwd='/verif', capture_output=True, text=True)
+    p = subprocess.run(['./check', prop, 'quick'], cwd='/verif', capture_output=True, text=True, env=dict(os.environ, VERIF_EVIDENCE='/tmp/vx-seed-evidence'))
 finally:
     subprocess.run(['git', '-C', '/repo', 'checkout', '--', '.'], check=True)
 lines = [l for l in p.stdout.split('\n') if l.startswith(('VIOLATION', 'UNDECIDED'))]
